@@ -18,6 +18,7 @@ INVARIANT AtMostOnce
 INVARIANT ExactlyOnceAtEnd
 INVARIANT CompleteOnce
 INVARIANT CompletedByNamed
+INVARIANT CompletedByEnds
 INVARIANT NoCrossElementCut
 INVARIANT NoStall
 INVARIANT SampleConservation
